@@ -336,7 +336,16 @@ CLAIMED["C09"] = (
     "lumOff children - any number, anywhere - were there; after ANY history kind and value are those of the last rgb / theme "
     "assignment, unknown transforms are the start colour's or dropped all together.  Compared with the real ColorFormat of "
     "fonts, fills, lines, gradient stops and pattern colours after every assignment of seeded histories from foreign start "
-    "states (stored element and the four readers, through a proxy held from the start and through a new one).",
+    "states (stored element and the four readers, through a proxy held from the start and through a new one).  FillFormat "
+    "likewise (Model/Fill, Props/C09F: none / noFill / solid / gradient / picture / pattern / group with nested colours, "
+    "stops, a:lin and a:path): each of the four type-changing calls succeeds and leaves that kind, keeps a fill that already "
+    "is of the kind, replaces any other by the kind's initial state; no other call changes the kind; fore / back / pattern / "
+    "angle / stop calls are refused with TypeError exactly on the kinds that lack them, the angle with ValueError exactly "
+    "without a:lin, a refused call changing nothing but a pattern's colour element; a colour assignment through fore_color / "
+    "back_color is the ColorFormat assignment on the colour it reads and leaves the other colour and the pattern alone; stop "
+    "assignments keep the number of stops, the angle and every other stop; after ANY history the kind is the one the last "
+    "type-changing call asked for.  Compared with the real FillFormat of shapes, lines, fonts and table cells after every "
+    "call (outcome, stored element, readers), each call through a held or a new proxy.",
     "Property table and domains are written by hand from the docstrings (trusted input); couplings documented by the "
     "library are excepted from independence; floats are dyadic rationals in the exact comparison.  Seven enum-alias "
     "findings (shared with C20) are listed.",
